@@ -283,6 +283,50 @@ theorem where_reparses_mysql (kw cop : String) (c : Cond) (hl : ∀ e ∈ leaves
       Pratt.parseE Dialects.mysql f 0 ts = some (toP 0 c, []) :=
   where_reparses .mysql kw cop c hl hops hw hf (fun pe h => C05.mysql_roundtrip pe h)
 
+/-! ### any expression position (select list, SET values, ORDER BY keys, function arguments, …) -/
+
+/-- the environment of a single expression -/
+def envForE (cop : String) (e : Ex) : Env := { envOf (leavesE e) with cop := cop }
+
+/-- wherever the statement renderer writes an expression built from binary operators and NOT over primary
+expressions, the text is that of a token list that re-parses, under the dialect's table, to the expression's
+operator tree -/
+theorem expr_reparses (d : Backend) (cop : String) (e : Ex) (hl : ∀ x ∈ leavesE e, clsOf x ≤ 5)
+    (hops : opsFit cop e = true)
+    (hw : Pratt.wf (tblOf d) (opsOf d) (exP 0 e) = true) (hf : inFrag (opsOf d) (exP 0 e) = true)
+    (round : ∀ pe, Pratt.wf (tblOf d) (opsOf d) pe = true →
+      ∃ f, Pratt.parseE (tblOf d) f 0 (Pratt.pr (pol d) pe) = some (pe, [])) :
+    ∃ (ts : List Tok) (f : Nat),
+      conc (envForE cop e) (exP 0 e) = e ∧
+      canon (rEx d e) = canon (toks d (envForE cop e) ts) ∧
+      Pratt.parseE (tblOf d) f 0 ts = some (exP 0 e, []) := by
+  have hρ : ∀ a, leafOK (a % 8) ((envForE cop e).leaf a) = true := envOf_ok (leavesE e)
+  have hag : Agree (envForE cop e) 0 (leavesE e) := envOf_agree _ hl
+  have hconc : conc (envForE cop e) (exP 0 e) = e := conc_exP _ e 0 hag hops
+  obtain ⟨f, hp⟩ := round (exP 0 e) hw
+  refine ⟨_, f, hconc, ?_, hp⟩
+  have hs := stmt_prints_as_pratt d (envForE cop e) hρ (exP 0 e) hf
+  rwa [hconc] at hs
+
+theorem expr_reparses_sqlite (cop : String) (e : Ex) (hl : ∀ x ∈ leavesE e, clsOf x ≤ 5) (hops : opsFit cop e = true)
+    (hw : Pratt.wf Dialects.sqlite Gen.Policy.sqliteOps (exP 0 e) = true) (hf : inFrag Gen.Policy.sqliteOps (exP 0 e) = true) :
+    ∃ (ts : List Tok) (f : Nat), conc (envForE cop e) (exP 0 e) = e ∧
+      canon (rEx .sqlite e) = canon (toks .sqlite (envForE cop e) ts) ∧
+      Pratt.parseE Dialects.sqlite f 0 ts = some (exP 0 e, []) :=
+  expr_reparses .sqlite cop e hl hops hw hf (fun pe h => C05.sqlite_roundtrip pe h)
+theorem expr_reparses_postgres (cop : String) (e : Ex) (hl : ∀ x ∈ leavesE e, clsOf x ≤ 5) (hops : opsFit cop e = true)
+    (hw : Pratt.wf Dialects.postgres Gen.Policy.postgresOps (exP 0 e) = true) (hf : inFrag Gen.Policy.postgresOps (exP 0 e) = true) :
+    ∃ (ts : List Tok) (f : Nat), conc (envForE cop e) (exP 0 e) = e ∧
+      canon (rEx .postgres e) = canon (toks .postgres (envForE cop e) ts) ∧
+      Pratt.parseE Dialects.postgres f 0 ts = some (exP 0 e, []) :=
+  expr_reparses .postgres cop e hl hops hw hf (fun pe h => C05.postgres_roundtrip pe h)
+theorem expr_reparses_mysql (cop : String) (e : Ex) (hl : ∀ x ∈ leavesE e, clsOf x ≤ 5) (hops : opsFit cop e = true)
+    (hw : Pratt.wf Dialects.mysql Gen.Policy.mysqlOps (exP 0 e) = true) (hf : inFrag Gen.Policy.mysqlOps (exP 0 e) = true) :
+    ∃ (ts : List Tok) (f : Nat), conc (envForE cop e) (exP 0 e) = e ∧
+      canon (rEx .mysql e) = canon (toks .mysql (envForE cop e) ts) ∧
+      Pratt.parseE Dialects.mysql f 0 ts = some (exP 0 e, []) :=
+  expr_reparses .mysql cop e hl hops hw hf (fun pe h => C05.mysql_roundtrip pe h)
+
 /-! Non-vacuity: `WHERE "a" = 1 AND NOT ("b" LIKE 'x' OR "c" BETWEEN 1 AND 2)`: the hypotheses hold on all three
 dialects, and the tree. -/
 def demoW : Cond :=
